@@ -67,19 +67,44 @@ func newKFake(fail map[int]bool, events *[]kEvent, strict bool) *kFake {
 		f.in, f.errs = make(chan *sarama.ProducerMessage, 2), make(chan *sarama.ProducerError)
 		go func() {
 			defer close(f.done)
-			for m := range f.in {
-				b, _ := m.Value.Encode()
-				f.mu.Lock()
-				f.got = append(f.got, b)
-				f.ptrs = append(f.ptrs, m)
-				f.topics = append(f.topics, m.Topic)
-				k := len(f.got)
-				bad := f.fail[k]
-				if bad {
-					*f.events = append(*f.events, kEvent{Ev: "fail", M: k})
+			open := true
+			for open {
+				// one produce request: up to four messages, in flight for a while (the application keeps handing messages
+				// over: the input side fills up), then answered
+				var batch []int
+				for len(batch) < 4 {
+					var m *sarama.ProducerMessage
+					if len(batch) == 0 {
+						m, open = <-f.in
+					} else {
+						select {
+						case m, open = <-f.in:
+						case <-time.After(2 * time.Millisecond):
+							m = nil
+						}
+					}
+					if !open || m == nil {
+						break
+					}
+					b, _ := m.Value.Encode()
+					f.mu.Lock()
+					f.got = append(f.got, b)
+					f.ptrs = append(f.ptrs, m)
+					f.topics = append(f.topics, m.Topic)
+					batch = append(batch, len(f.got))
+					f.mu.Unlock()
 				}
-				f.mu.Unlock()
-				if bad {
+				for w := 0; w < 30 && open && len(f.in) < cap(f.in); w++ {
+					time.Sleep(100 * time.Microsecond)
+				}
+				for _, k := range batch {
+					if !f.fail[k] {
+						continue
+					}
+					f.mu.Lock()
+					*f.events = append(*f.events, kEvent{Ev: "fail", M: k})
+					m := f.ptrs[k-1]
+					f.mu.Unlock()
 					select { // nothing else happens in the library until the application has taken the error (or closes)
 					case f.errs <- &sarama.ProducerError{Msg: m, Err: errors.New("kafka: broker not available (scripted)")}:
 					case <-f.closing:
